@@ -169,7 +169,9 @@ def c11_set(ns):
             H('c11_iter_tiny_n2', 'piecewise', 'pieces N = 2; ordinates are multiples of 2^-60', False, INT_FNS[1:2]),
             H('c11_indefinite_tiny_n3', 'piecewise', 'pieces N = 3; ordinates are multiples of 2^-60', False, INT_FNS[3:4]),
             H('c11_iter_filter_n3', 'piecewise', 'pieces N = 3; input iterator with an inexact size hint (filter)', False, INT_FNS[1:2]),
-            H('c11_iter_ref_filter_n3', 'piecewise', 'pieces N = 3; input iterator with an inexact size hint (filter)', False, INT_FNS[0:1])]
+            H('c11_iter_ref_filter_n3', 'piecewise', 'pieces N = 3; input iterator with an inexact size hint (filter)', False, INT_FNS[0:1]),
+            H('c11_iter_nth_n3', 'piecewise', 'pieces N = 3; by-value iterator consumed with nth(2)', False, INT_FNS[1:2]),
+            H('c11_iter_ref_nth_n3', 'piecewise', 'pieces N = 3; by-reference iterator consumed with nth(2)', False, INT_FNS[0:1])]
     return out + [H('c11_empty', 'piecewise', None, True, INT_FNS[2:4])]
 
 
